@@ -248,6 +248,51 @@ def rule_pair_count(ctx):
     ctx.ob(R, "pandapower.auxiliary::_clean_up::two-per-row", ok, det, fc.loc(blk) if blk is not None else fc.loc())
 
 
+def rule_names_and_cells(ctx):
+    import ast
+    from ppsa.astutil import norm, names_in
+    R = "PAIR-NAMES"
+    ctx.rule(R, "the auxiliary VSCs of a back-to-back VSC are named from the index LABEL of the b2b_vsc row when they are created "
+                "(_add_b2b_vsc: 'b2b_' + str(row.name)) and when they are looked up for removal / results (get_b2b_vsc_names builds the names "
+                "from the labels it is given, called with net.b2b_vsc.index); user objects stored in table cells (pwl_cost.points lists) are "
+                "not mutated in place by the OPF conversion")
+    fa = ctx.repo.func("pandapower.auxiliary:_add_b2b_vsc")
+    nm = [st for st in ast.walk(fa.node) if isinstance(st, ast.Assign) and norm(st.targets[0], 10) == "name"]
+    ok = bool(nm) and ".name" in norm(nm[0].value, 60) and "b2b_" in norm(nm[0].value, 60)
+    ctx.ob(R, "pandapower.auxiliary::_add_b2b_vsc::name-from-label", ok, f"name = {norm(nm[0].value, 60) if nm else '?'}", fa.loc())
+    fg = ctx.repo.func("pandapower.auxiliary:get_b2b_vsc_names")
+    ret = next((x.value for x in ast.walk(fg.node) if isinstance(x, ast.Return)), None)
+    from ppsa.astutil import inline_locals
+    t = norm(inline_locals(fg.node, ret), 300).replace(" ", "") if ret is not None else ""
+    ok = "np.repeat(elements,2)" in t and "arange" not in t
+    ctx.ob(R, "pandapower.auxiliary::get_b2b_vsc_names::names-from-labels", ok,
+           "names built from the given labels" if ok else f"`{t[:110]}` numbers the names by position: for a b2b_vsc index other than 0..n-1 the auxiliary "
+           "VSCs are not found by _clean_up and stay in net.vsc", fg.loc())
+    for fq in ("pandapower.auxiliary:_clean_up", "pandapower.results:_get_b2b_vsc_results"):
+        fi = ctx.repo.try_func(fq)
+        if fi is None:
+            # results.py keeps the lookup in another function: find it
+            for f in ctx.repo.module("pandapower.results").functions.values():
+                if "get_b2b_vsc_names" in ast.unparse(f.node):
+                    fi = f
+        if fi is None:
+            continue
+        calls = [c for c in ast.walk(fi.node) if isinstance(c, ast.Call) and norm(c.func, 30) == "get_b2b_vsc_names"]
+        for c in calls:
+            a = norm(c.args[0], 80)
+            okc = "index" in a or "indices" in a
+            ctx.ob(R, f"{fi.module.name}::{fi.qualname}::lookup-by-label", okc, f"get_b2b_vsc_names({a})", fi.loc(c))
+    fo = ctx.repo.func("pandapower.opf.make_objective:costs_from_areas")
+    MUT = ("sort", "append", "extend", "insert", "reverse", "pop", "remove", "clear")
+    bad = [c for c in ast.walk(fo.node) if isinstance(c, ast.Call) and isinstance(c.func, ast.Attribute) and c.func.attr in MUT
+           and isinstance(c.func.value, ast.Name) and c.func.value.id == "points"]
+    bad += [st for st in ast.walk(fo.node) if isinstance(st, (ast.Assign, ast.AugAssign)) and any(isinstance(t, ast.Subscript) and isinstance(t.value, ast.Name) and t.value.id == "points"
+                                                                                                 for t in (st.targets if isinstance(st, ast.Assign) else [st.target]))]
+    ctx.ob(R, "pandapower.opf.make_objective::costs_from_areas::points-not-mutated", not bad,
+           "the list taken from net.pwl_cost.points is only read" if not bad else
+           f"`{norm(bad[0], 60)}` changes the list object stored in the user's net.pwl_cost.points cell", fo.loc(bad[0]) if bad else fo.loc())
+
+
 def run(ctx):
     ctx.assume("calls that cannot be resolved (dynamic attributes, user callbacks) are assumed to have no effect on user "
                "tables and to be able to raise")
@@ -264,6 +309,7 @@ def run(ctx):
         ctx.fail("PAIR-BB: estimation entry points no longer reach set/reset_bb_switch_impedance")
     rule_effect(ctx)
     rule_pair_count(ctx)
+    rule_names_and_cells(ctx)
     # PAIR of the temporary outage of the contingency analysis (the listed exception of the EFFECT rule for ?.in_service is
     # licensed only because the store is restored in a finally block: decided here, shared with C14/C15)
     from rules import _contingency as cg
@@ -294,6 +340,8 @@ def variants(repo):
     opf = "pandapower/optimal_powerflow.py"
     V = Variant
     return [
+        V("b2b names numbered by position", "pandapower/auxiliary.py", replace_once("np.repeat(elements, 2).astype(str)", "np.repeat(np.arange(len(elements)), 2).astype(str)"), "PAIR-NAMES"),
+        V("pwl areas sorted in place", "pandapower/opf/make_objective.py", replace_once("    last_upper = None\n", "    last_upper = None\n    points.sort(key=lambda area: area[0])\n"), "points-not-mutated"),
         V("clean-up counts only in-service dclines", "pandapower/auxiliary.py", in_function("_clean_up", lambda s: s.replace('    if len(net["dcline"]) > 0:\n        dc_gens = net.gen.index[(len(net.gen) - len(net.dcline) * 2):]', '    n_dcline = np.count_nonzero(net["dcline"]["in_service"].values)\n    if n_dcline > 0:\n        dc_gens = net.gen.index[(len(net.gen) - n_dcline * 2):]')), "PAIR-COUNT"),
         V("aux gens only for in-service dclines", "pandapower/auxiliary.py", replace_once("    for dctab in net.dcline.itertuples():", "    for dctab in net.dcline[net.dcline.in_service].itertuples():"), "PAIR-COUNT"),
         V("contingency restore on normal path only", "pandapower/contingency/contingency.py", in_function("run_contingency", lambda s: s.replace("            finally:\n                net[element].at[i, 'in_service'] = True\n", "            net[element].at[i, 'in_service'] = True\n", 1)), "PAIR-OUTAGE"),
